@@ -9,7 +9,9 @@ from bare_script.parser import BareScriptParserError
 def canon(e):
     (k, v), = e.items()
     if k == 'number':
-        return ['num', float(v).hex()]
+        if isinstance(v, bool) or not isinstance(v, (int, float)):
+            return ['badnum', repr(v)]
+        return ['int', str(v)] if isinstance(v, int) else ['num', v.hex()]
     if k == 'string':
         return ['str', v]
     if k == 'variable':
